@@ -1024,7 +1024,9 @@ class Controller:
                     ))
                     raise_with_traceback(e)
 
-                if comp not in self.comp_staged_in:
+                # VV: a Subject that has been asked to finish() (e.g. it was shutdown before it ever ran) is about to
+                # terminate; wait for the Controller to record it as done before deciding what to do with its Observer
+                if comp not in self.comp_staged_in or comp.finishCalled:
                     return False
 
             return True
